@@ -197,7 +197,7 @@ def run(eng, rep) -> None:
             rep.info("R10.2", m.file, m.qual, "def gen", "plug-in overrides gen (documented as 'do not override'); the override is analysed as post-gate")
     # plug-in generate()s are only called from gen
     generates = prog.all_overrides(gen.cls, "generate")
-    rep.floor("R10.3", "plug-in generate() implementations", len([g for g in generates if g.cls.qual != gen.cls.qual]), 4)
+    rep.floor("R10.3", "plug-in generate() implementations", len([g for g in generates if g.cls.qual != gen.cls.qual]), 2)
     for g in generates:
         for cs in cg.callers_of(g.qual):
             if cs.how == "by-name":
